@@ -59,5 +59,26 @@ pos("sign-mul-after-umul",X,"	z.neg = x.neg != y.neg\n\n	if x.form == finite && 
 pos("cmpsym-ucmp-exp-one-sided",X,"	case x.exp < y.exp:\n		return -1\n	case x.exp > y.exp:\n		return +1\n	}","	case x.exp < y.exp:\n		return -1\n	case x.exp >= y.exp+1:\n		return +1\n	}","CMPSYM","ucmp",quick=True)
 pos("cmpsym-deccmp-same-direction",D,"	case x[i] < y[i]:\n		r = -1\n	case x[i] > y[i]:\n		r = 1\n	}","	case x[i] < y[i]:\n		r = -1\n	case x[i] > y[i]:\n		r = -1\n	}","CMPSYM","dec.cmp")
 pos("cmpsym-ucmp-words-before-exp",X,"	switch {\n	case x.exp < y.exp:\n		return -1\n	case x.exp > y.exp:\n		return +1\n	}\n	// x.exp == y.exp\n\n	// compare mantissas\n	i := len(x.mant)","	// compare mantissas\n	i := len(x.mant)","CMPSYM","ucmp")
+
+# NORM
+pos("norm-setfloat64-final-round-removed",X,"		z.prec--\n	}\n	z.round(0)\n	return z\n}\n\n// SetInf","		z.prec--\n	}\n	return z\n}\n\n// SetInf","NORM","SetFloat64",quick=True)
+pos("norm-setbits64-no-rounding",X,"	z.mant = z.mant.setUint64(x)\n	z.setExpAndRound(limitExp(exp)+int64(len(z.mant))*_DW-dnorm(z.mant), 0)\n	return z","	z.mant = z.mant.setUint64(x)\n	z.exp = int32(len(z.mant))*_DW - int32(dnorm(z.mant))\n	return z","NORM","setBits64")
+pos("norm-setint-no-dnorm",X,"	z.setExpAndRound(int64(len(z.mant))*_DW-dnorm(z.mant), 0)\n	return z\n}\n\nfunc (z *Decimal) setBits64","	z.setExpAndRound(int64(len(z.mant))*_DW, 0)\n	return z\n}\n\nfunc (z *Decimal) setBits64","NORM","SetInt")
+# EXP
+pos("revert-F14-setbits64-unclamped",X,"	z.setExpAndRound(limitExp(exp)+int64(len(z.mant))*_DW-dnorm(z.mant), 0)","	z.setExpAndRound(exp+int64(len(z.mant))*_DW-dnorm(z.mant), 0)","EXP","setBits64",quick=True,note="F14")
+pos("revert-F14-setmantexp-unclamped",X,"	z.setExpAndRound(int64(z.exp)+limitExp(int64(exp)), 0)","	z.setExpAndRound(int64(z.exp)+int64(exp), 0)","EXP","SetMantExp")
+pos("exp-scan-range-check-upper-only","decimal_conv.go","	if MinExp <= exp10 && exp10 <= MaxExp {","	if exp10 <= MaxExp {","EXP","scan")
+pos("exp-round-step-unguarded",X,"				if z.exp >= MaxExp {\n					// exponent overflow\n					z.form = inf\n					return\n				}\n				z.exp++","				z.exp++","EXP","round")
+pos("exp-clamp-one-sided",X,"	if exp < -lim {\n		return -lim\n	}\n	return exp","	return exp","EXP","")
+# OVERLAP
+pos("overlap-decaddat-offset",D,"		if c := add10VV(z[i:i+n], z[i:], x); c != 0 {","		if c := add10VV(z[i:i+n], z[i+1:], x); c != 0 {","OVERLAP","decAddAt",quick=True)
+pos("overlap-divbasic-in-place",D,"		q.divBasic(u, v)\n	} else {\n		q.divRecursive(u, v)","		u.divBasic(u, v)\n	} else {\n		q.divRecursive(u, v)","OVERLAP","divLarge")
+# NORMARG
+pos("normarg-norm-dropped",D,"			e := qhatv.cmp(uu.norm())","			e := qhatv.cmp(uu)","NORMARG","divRecursiveStep",quick=True)
+# INIT
+pos("init-divrecursive-no-clear",D,"	temps := make([]*dec, recDepth)\n	z.clear()\n","	temps := make([]*dec, recDepth)\n","INIT","",quick=True,note="passes all tests because fresh quotient buffers happen to be zero; reported at the caller that owns the buffer (divLarge)")
+pos("init-basicsqr-no-clear",D,"	t := *tp // temporary variable to hold the products\n	t.clear()\n","	t := *tp // temporary variable to hold the products\n","INIT","decBasicSqr")
+pos("init-basicmul-no-clear",D,"	z[0 : len(x)+len(y)].clear() // initialize z\n","","INIT","")
+neg("neg-init-mul-partial-clear",D,"	z = z[0 : m+n]  // z has final length but may be incomplete\n	z[2*k:].clear() // upper portion of z is garbage (and 2*k <= m+n since k <= n <= m)","	z = z[0 : m+n]  // z has final length but may be incomplete",["INIT"],note="KNOWN MISS kept as a negative control: ranges are not compared, so removing the partial clear in mul is out of reach of INIT (DESIGN E3-INIT)")
 json.dump(C,open("order.json","w"),indent=1,ensure_ascii=False)
 print(len(C),"controls")
